@@ -251,9 +251,18 @@ def run_shard(args):
             case, res = state["final"]
             excluded.add(state["target"])
             stats.violations.append({"case": case, "fail": res.fail.to_json(), "shrunk": True})
-        except hypothesis.errors.Flaky as e:
-            # a flaky case is a harness/oracle defect, never a violation
-            raise HarnessError(f"flaky case: {e}")
+        except hypothesis.errors.Flaky:
+            # the same case failed once and passed once inside this process: its outcome depends on state outside the case
+            # (possibly state leaking between calls in the code under test). The saved case is judged in a fresh process
+            # like every other failure; if it holds there it is only recorded.
+            stats.labels["flaky_in_process"] += 1
+            if state["final"] is not None:
+                case, res = state["final"]
+                excluded.add(state["target"])
+                stats.violations.append({"case": case, "fail": res.fail.to_json(), "shrunk": False})
+            rounds += 1
+            remaining -= max(stats.evaluations - before, 1)
+            continue
         used = max(stats.evaluations - before, 1)
         remaining -= used
         rounds += 1
